@@ -18,6 +18,10 @@ import CapyV.Driver.C09
 import CapyV.Driver.C02
 import CapyV.Driver.C15
 import CapyV.Driver.C11
+import CapyV.Driver.C04
+import CapyV.Driver.C18
+import CapyV.Driver.C19
+import CapyV.Driver.C16
 open CapyV.Driver
 
 def dispatch (line : String) : String :=
@@ -43,6 +47,10 @@ def dispatch (line : String) : String :=
   | "C02" :: args => c02 args
   | "C15" :: args => c15 args
   | "C11" :: args => c11 args
+  | "C04" :: args => c04 args
+  | "C18" :: args => c18 args
+  | "C19" :: args => c19 args
+  | "C16" :: args => c16 args
   | _ => "bad-op"
 
 partial def loop (h : IO.FS.Stream) (out : IO.FS.Stream) : IO Unit := do
